@@ -23,7 +23,7 @@ var CfgC01 = reg(&MachineCfg{
 			opt.AolGenesis = g.genAolGenesis(app.MakeEncodingConfig().Codec)
 		}
 	},
-	Gens: []interface{}{"aol", 62, "commit", 14, "crash", 4, "restart", 4, "export", 5, "bank", 3, "authz", 3, "did", 2, "pnft", 3},
+	Gens: []interface{}{"aol", 60, "commit", 14, "crash", 4, "restart", 4, "export", 5, "bank", 2, "authz", 3, "did", 2, "pnft", 2, "sim_aol", 4},
 	Bias: map[string]int{"right-signers": 88, "exec": 6, "multi": 6},
 	Rule: "rapid state machine over signed txs through DeliverTx/Commit/Query: create-topic/add-writer/delete-writer/add-record by listed, delisted and foreign accounts on prefix-colliding topic names, plus crash, restart and genesis export/import; non-trivial = at least one record acknowledged and afterwards at least one of {its writer removed, restart/crash, export/import, second topic}; distinct = distinct sequence of (step kind, message types, outcome class)",
 	NonTrivial: func(w *world.World) bool {
@@ -36,8 +36,8 @@ var CfgC01 = reg(&MachineCfg{
 
 var CfgC02 = reg(&MachineCfg{
 	Prop: "C02",
-	Gens: []interface{}{"aol", 66, "commit", 12, "authz", 12, "crash", 2, "restart", 2, "bank", 3, "pnft", 3},
-	Bias: map[string]int{"right-signers": 55, "exec": 22, "fee-payer": 40},
+	Gens: []interface{}{"aol", 64, "commit", 12, "authz", 12, "crash", 2, "restart", 2, "bank", 2, "pnft", 2, "sim_aol", 6},
+	Bias: map[string]int{"right-signers": 55, "exec": 22, "fee-payer": 40, "multi": 18},
 	Rule: "same machine with independently chosen signer sets (right, other account, swapped, dropped, garbage signature, wrong sequence, extra), sign modes direct/amino-json/direct-aux, named fee payers and authz grant/revoke/exec; oracle = transition validity on the aol store diff of every DeliverTx; non-trivial = at least one refused AOL attempt and at least one accepted writer-list change or append",
 	NonTrivial: func(w *world.World) bool {
 		return lab(w, "aol refused attempt") > 0 && (lab(w, "aol record acknowledged") > 0 || lab(w, "aol writer added") > 0)
@@ -51,7 +51,7 @@ var CfgC13 = reg(&MachineCfg{
 			opt.AolGenesis = g.genAolGenesis(app.MakeEncodingConfig().Codec)
 		}
 	},
-	Gens: []interface{}{"aol", 70, "commit", 18, "crash", 3, "export", 4, "bank", 2, "walks", 3},
+	Gens: []interface{}{"aol", 68, "commit", 18, "crash", 3, "export", 4, "bank", 2, "walks", 3, "sim_aol", 2},
 	Bias: map[string]int{"right-signers": 94, "exec": 3, "multi": 10, "aol-owners": 2, "aol-create": 4, "aol-delw": 3, "aol-rec": 6},
 	Rule: "AOL machine on prefix-related topic names; after every commit the owner/topic counters (store and query) and complete paging walks (key- and offset-style, limits 0/1/2/3/n±1/huge, forward and reverse, with and without count_total) are compared with the model; non-trivial = an owner with >=3 topics, a writer deleted, and a multi-page walk",
 	NonTrivial: func(w *world.World) bool {
@@ -77,7 +77,7 @@ var CfgC13 = reg(&MachineCfg{
 
 // ---- DID ----------------------------------------------------------------------------------------
 
-var didGens = []interface{}{"did", 74, "commit", 14, "crash", 3, "restart", 2, "export", 3, "bank", 2, "aol", 2}
+var didGens = []interface{}{"did", 70, "commit", 14, "crash", 3, "restart", 2, "export", 3, "bank", 2, "aol", 2, "sim_did", 5}
 
 var CfgC03 = reg(&MachineCfg{
 	Prop: "C03", Gens: didGens,
@@ -99,7 +99,7 @@ var CfgC04 = reg(&MachineCfg{
 
 var CfgC05 = reg(&MachineCfg{
 	Prop: "C05",
-	Gens: []interface{}{"did", 70, "commit", 14, "crash", 4, "restart", 4, "export", 6, "bank", 2},
+	Gens: []interface{}{"did", 66, "commit", 14, "crash", 4, "restart", 4, "export", 6, "bank", 2, "sim_did", 4},
 	Bias: map[string]int{"right-signers": 94, "exec": 2, "right-proof": 75, "did-deactivate": 25, "aim-tomb": 45, "did-replay": 8},
 	Rule: "DID machine weighted to deactivation followed by long suffixes of create/update/deactivate on the tombstone with former and fresh keys, restarts, crashes and export/import; oracle = tombstone permanence (read says not found, entry byte-identical, every later message refused) and create-on-existing refused; non-trivial = a deactivation followed by >=3 attempts on the tombstone incl. one with a harness-made proof and a restart/export afterwards",
 	NonTrivial: func(w *world.World) bool {
@@ -121,7 +121,7 @@ var CfgC11 = reg(&MachineCfg{
 
 var CfgC06 = reg(&MachineCfg{
 	Prop: "C06",
-	Gens: []interface{}{"pnft", 70, "commit", 12, "authz", 10, "crash", 2, "restart", 2, "bank", 2, "export", 2},
+	Gens: []interface{}{"pnft", 66, "commit", 12, "authz", 10, "crash", 2, "restart", 2, "bank", 2, "export", 2, "sim_pnft", 5},
 	Bias: map[string]int{"right-signers": 68, "exec": 15, "pnft-handover": 5, "pnft-transfer": 6, "former-owner": 35},
 	Rule: "PNFT state machine: the seven message types with actors chosen independently of signers, hand-over chains, burn and re-mint, former owners and creators, ghost receivers, upper-case spellings, authz grant/exec; oracle = transition validity (actor is the current owner and stands behind the tx) + full decoded-store agreement after every DeliverTx; non-trivial = an ownership hand-over followed by a refused attempt of the former owner",
 	NonTrivial: func(w *world.World) bool {
@@ -131,7 +131,7 @@ var CfgC06 = reg(&MachineCfg{
 
 var CfgC12 = reg(&MachineCfg{
 	Prop: "C12",
-	Gens: []interface{}{"pnft", 76, "commit", 16, "crash", 2, "export", 3, "bank", 1, "walks", 2},
+	Gens: []interface{}{"pnft", 73, "commit", 16, "crash", 2, "export", 3, "bank", 1, "walks", 2, "sim_pnft", 3},
 	Bias: map[string]int{"right-signers": 95, "exec": 2, "adversarial-ids": 1, "by-owner": 90, "former-owner": 5, "pnft-transfer": 5},
 	Rule: "PNFT machine over adversarial identifiers (prefixes of one another, separators, invalid UTF-8, 300-byte ids, NUL while not excluded by an open finding); after every tx the decoded store equals the model, after every commit every single-item view and listing (tokens of denom, by owner, denoms paged, denoms by owner) is compared for all pool arguments; completeness: a fresh pair minted by the denom owner is accepted; non-trivial = >=2 denoms, >=3 tokens minted, a transfer and a burn",
 	NonTrivial: func(w *world.World) bool {
@@ -208,7 +208,7 @@ var CfgC07 = reg(&MachineCfg{
 	},
 })
 
-var mixedGens = []interface{}{"aol", 22, "did", 18, "pnft", 22, "burn", 6, "bank", 4, "authz", 3}
+var mixedGens = []interface{}{"aol", 22, "did", 18, "pnft", 22, "burn", 6, "bank", 4, "authz", 3, "sim_aol", 2, "sim_did", 2, "sim_pnft", 2}
 
 func withGens(extra ...interface{}) []interface{} {
 	return append(append([]interface{}{}, mixedGens...), extra...)
